@@ -385,6 +385,7 @@ def run(chk):
     _pending_rule(chk, prog)
     _loopdone_rule(chk, prog)
     _threadjoin_rule(chk, prog)
+    _armguard_rule(chk, prog)
 
 
 ACQUIRE = ("socket", "accept", "accept4", "open", "dup", "inotify_init1", "inotify_init", "epoll_create1", "timerfd_create",
@@ -702,3 +703,44 @@ def _threadjoin_rule(chk, prog):
         else:
             chk.ok(rule, "%s: every popped entry that may carry a worker is reaped" % fn.name, n=len(pops))
     chk.floor(rule, 3, n)
+
+
+def _armguard_rule(chk, prog):
+    """Inside `case A: case B:` the switch operand is A or B.  A test of that operand against some other constant is
+    always false there, so whatever it guards never runs - in janet_ev_default_threaded_callback what it guards is the
+    free() of a message payload.  A contradiction rule: it needs no knowledge of what the guarded statement is for."""
+    rule = "C20-ARMGUARD"
+    chk.rule(rule, "inside a switch arm, a test of the switch operand against a constant names one of the arm's own labels (a release guarded by another label's value never runs)")
+    from jv.util import case_map, switch_cases, case_name
+    n = 0
+    for fn in prog.all_funcs():
+        for sw in fn.nodes:
+            if sw.k != "switch" or len(sw.kids) < 2 or any(x.k == "call" for x in sw.kids[0].walk()):
+                continue
+            scr = strip_casts(sw.kids[0]).text().replace(" ", "")
+            vals = dict((case_name(c), c.d.get("v")) for c in switch_cases(sw))
+            m = case_map(sw)
+            # the operand must not be reassigned inside the switch
+            if any(x.k == "asg" and strip_casts(x.kids[0]).text().replace(" ", "") == scr for x in sw.kids[1].walk()):
+                continue
+            for x in sw.kids[1].walk():
+                if x.k != "bin" or x.op not in ("==", "!=") or x.id not in m:
+                    continue
+                a, b = strip_casts(x.kids[0]), strip_casts(x.kids[1])
+                if a.text().replace(" ", "") != scr or b.v is None:
+                    continue
+                arm = m[x.id]
+                if "default" in arm or not arm:
+                    continue
+                n += 1
+                chk.instance(rule)
+                armvals = [vals.get(nm) for nm in arm]
+                if b.v in armvals:
+                    chk.ok(rule, "%s: `%s` inside case %s" % (fn.name, x.text()[:40], "/".join(arm)))
+                else:
+                    chk.analysed(fn)
+                    chk.violation(rule, fn.tu.name, fn.name, "%s:%s" % ("/".join(arm), b.v), x.loc,
+                                  "`%s` is evaluated inside the arm for %s, where the operand can only be %s: the test is always %s, and what "
+                                  "it guards (here the release of the message's heap payload) never happens" % (
+                                      x.text()[:60], "/".join(arm), " or ".join(str(v) for v in armvals), "false" if x.op == "==" else "true"))
+    chk.floor(rule, 20, n)
